@@ -165,6 +165,18 @@ PROPS = {
         "explanation": "C07 theorems: IP window inside the first mapping containing IP, containing IP, ≤ 128 bytes to either side, clipped exactly; memory-list layout "
                        "(count + descriptors in registration order); registration completeness. Faithfulness of the bytes rests on C17.",
     },
+    "C17": {
+        "rule": "live: MemReader::for_virtual_mem / for_file / for_ptrace (target ptrace-stopped) on ranges inside, ending exactly at, and crossing the end of "
+                "pattern regions (address-derived fill) followed by an unmapped page, a PROT_NONE page or another readable page; lengths 1 … 70000 dense near "
+                "1 … 24 and near page multiples, every alignment mod 8. Distinct = (strategy, neighbour kind, start mod 8, length mod 8, pages, crossing, outcome).",
+        "expected_tags": ["strat.v", "strat.f", "strat.p", "kind.u", "kind.n", "kind.r", "range.inside", "range.atEnd", "range.crossing", "len.partialWord", "result.err"],
+        "trusted_base": ["kernel semantics of process_vm_readv (needs PROT_READ, page-granular prefix), pread(/proc/pid/mem) and PTRACE_PEEKDATA (FOLL_FORCE: any mapped page; "
+                         "a peek fails if any of its 8 bytes is unmapped) — assumptions of the model, validated by these runs only"],
+        "assumptions": ["'unreadable' for the file and ptrace strategies means unmapped: they return the real bytes of mapped PROT_NONE pages (not fabricated data)"],
+        "explanation": "C17 theorems over the model of the three strategies on a paged memory: readable range ⇒ exact bytes (vectored; file; ptrace for every range "
+                       "of at least a word, and for shorter ranges when either candidate word is mapped); otherwise failure or a non-empty prefix of readable "
+                       "bytes (vectored) / failure (file, ptrace); soundness of whatever ptrace returns; counterexample theorem for the repaired tail read.",
+    },
 }
 
 NOT_APPLICABLE = {}
